@@ -84,36 +84,120 @@ func forwardedStore(load *ssa.UnOp) *ssa.Store {
 		}
 	}
 
-	// function-wide: a local Alloc that is only stored once and never captured/escaped.
+	// function-wide: a local Alloc that is stored exactly once (closures that capture it included)
+	// and whose address does not otherwise escape.
 	if al, ok := load.X.(*ssa.Alloc); ok {
-		var only *ssa.Store
-
-		for _, r := range *al.Referrers() {
-			switch rr := r.(type) {
-			case *ssa.Store:
-				if rr.Addr != ssa.Value(al) {
-					return nil // address stored somewhere: escapes
-				}
-
-				if only != nil {
-					return nil
-				}
-
-				only = rr
-			case *ssa.UnOp:
-				// load
-			case *ssa.DebugRef:
-			default:
-				return nil
-			}
-		}
-
-		if only != nil && dominates(only.Block(), b) && only.Block() != b {
+		if only := SingleStore(al); only != nil && only.Block().Parent() == b.Parent() && dominates(only.Block(), b) && only.Block() != b {
 			return only
 		}
 	}
 
 	return nil
+}
+
+// SingleStore returns the only store ever made to the local variable al, looking also into the
+// closures that capture it by reference; nil if there are several stores, none, or the address
+// escapes in any other way (passed to a call, stored, sliced, ...).
+func SingleStore(al *ssa.Alloc) *ssa.Store {
+	var (
+		only  *ssa.Store
+		count int
+		bad   bool
+	)
+
+	var visit func(addr ssa.Value, depth int)
+
+	visit = func(addr ssa.Value, depth int) {
+		if depth > 6 || addr.Referrers() == nil {
+			bad = true
+
+			return
+		}
+
+		for _, r := range *addr.Referrers() {
+			switch rr := r.(type) {
+			case *ssa.Store:
+				if rr.Addr != addr {
+					bad = true // the address itself is stored somewhere
+
+					return
+				}
+
+				count++
+				only = rr
+			case *ssa.UnOp, *ssa.DebugRef:
+			case *ssa.MakeClosure:
+				fn, ok := rr.Fn.(*ssa.Function)
+				if !ok {
+					bad = true
+
+					return
+				}
+
+				for i, bnd := range rr.Bindings {
+					if bnd == addr && i < len(fn.FreeVars) {
+						visit(fn.FreeVars[i], depth+1)
+					}
+				}
+			case *ssa.FieldAddr, *ssa.IndexAddr:
+				// partial writes through field/element addresses count as "several stores"
+				for _, r2 := range *rr.(ssa.Value).Referrers() {
+					if _, isStore := r2.(*ssa.Store); isStore {
+						bad = true
+
+						return
+					}
+				}
+			default:
+				bad = true
+
+				return
+			}
+		}
+	}
+
+	visit(al, 0)
+
+	if bad || count != 1 {
+		return nil
+	}
+
+	return only
+}
+
+// freeVarAlloc resolves a by-reference captured variable to the Alloc in the enclosing function.
+func (p *Program) freeVarAlloc(fv *ssa.FreeVar) *ssa.Alloc {
+	var v ssa.Value = fv
+
+	for range 6 {
+		cur, ok := v.(*ssa.FreeVar)
+		if !ok {
+			break
+		}
+
+		fn := cur.Parent()
+
+		mc := p.ClosureSite(fn)
+		if mc == nil {
+			return nil
+		}
+
+		v = nil
+
+		for i, f := range fn.FreeVars {
+			if f == cur && i < len(mc.Bindings) {
+				v = mc.Bindings[i]
+			}
+		}
+
+		if v == nil {
+			return nil
+		}
+	}
+
+	al, _ := v.(*ssa.Alloc)
+
+	return al
 }
 
 func dominates(a, b *ssa.BasicBlock) bool {
@@ -246,7 +330,7 @@ func CallArgs(c ssa.CallInstruction) []ssa.Value {
 }
 
 // Desc renders a canonical, resolved description of a value (depth-limited s-expression).
-func (p *Program) Desc(v ssa.Value) string { return p.desc(v, 4) }
+func (p *Program) Desc(v ssa.Value) string { return p.desc(v, 5) }
 
 // DescN is Desc with an explicit depth.
 func (p *Program) DescN(v ssa.Value, depth int) string { return p.desc(v, depth) }
@@ -290,6 +374,18 @@ func (p *Program) desc(v ssa.Value, depth int) string {
 	v = Fwd(v)
 	if depth <= 0 {
 		return "_"
+	}
+
+	// load of a by-reference captured variable that is only ever assigned once in the enclosing
+	// function: describe the assigned value, marked as coming from the enclosing scope
+	if u, ok := v.(*ssa.UnOp); ok && u.Op == token.MUL {
+		if fv, ok := u.X.(*ssa.FreeVar); ok {
+			if al := p.freeVarAlloc(fv); al != nil {
+				if st := SingleStore(al); st != nil {
+					return "free:" + p.desc(st.Val, depth)
+				}
+			}
+		}
 	}
 
 	switch x := v.(type) {
